@@ -406,7 +406,22 @@ def ok (t : Trace) : Bool := killTotal t.ev && killBound t.ev && killOutcome t.e
 def killEnds (ev : List Ev) : Bool :=
   if ev.any (isKillRet ev) then ev.any isJoined else true
 
-def okSettled (t : Trace) : Bool := ok t && killEnds t.ev
+/-- on the single-threaded runtime of the correspondence (a kill() call and the actor's polls do not overlap):
+    once kill() has returned on an actor that had not begun to stop, no fresh on_run pass begins and none
+    completes - the hook in progress finishes, then on_stop(killed=true) runs -/
+def noRunAfterKill (ev : List Ev) : Bool :=
+  (ev.foldl (fun (st : Bool × Bool × Bool) e =>
+      -- (stopped, armed, ok)
+      match e with
+      | .issued _ .kill _ _ => if st.1 then st else (st.1, true, st.2.2)
+      | .stopStart _ => (true, st.2.1, st.2.2)
+      | .joined _ => (true, st.2.1, st.2.2)
+      | .runPoll _ => if st.2.1 && !st.1 then (st.1, st.2.1, false) else st
+      | .runEnd _ _ => if st.2.1 && !st.1 then (st.1, st.2.1, false) else st
+      | _ => st) (false, false, true)).2.2
+
+def okAtomic (t : Trace) : Bool := ok t && noRunAfterKill t.ev && killBoundAtomic t.ev
+def okSettled (t : Trace) : Bool := okAtomic t && killEnds t.ev
 end C06
 
 /-! ### C07 — actors end when stopped or unreferenced, and only then -/
